@@ -50,6 +50,16 @@ Theorem C06_failed_transfer_only_fee : forall var src tgts l,
 Proof. exact failed_transfer_only_fee. Qed.
 Print Assumptions C06_failed_transfer_only_fee.
 
+(* The same at the level of a contract transaction as it arrives (JSON ok?, gasLimit field, transferValue field, calldata
+   byte counts, whatever the EVM then does): decodeContractData / preCheckContractFee / IntrinsicGas are inside the model. *)
+Theorem C06_contract_tx_conserves : forall U src jok gas value creation nz z tr eok gu stale l,
+  universe U -> In src U -> Forall (ev_closed U) tr -> Forall ev_wf tr -> 0 <= gu ->
+  match stale with Some s => 0 <= s | None => True end -> nonneg l -> sched_ok U (sched l) ->
+  let l' := exec_tx repaired (contract_tx src jok gas value creation nz z tr eok gu stale) l in
+  wealth U l' + burned l' = wealth U l + burned l /\ nonneg l' /\ sched_ok U (sched l') /\ sumU U (bal l') <= sumU U (bal l).
+Proof. exact contract_tx_conserves. Qed.
+Print Assumptions C06_contract_tx_conserves.
+
 (* [burned] grows only by a contract naming itself as beneficiary of SELFDESTRUCT (and the operator-node charge,
    by definition of exec_tx): a trace without self-suicide destroys nothing. *)
 Theorem C06_burn_only_self_suicide : forall var tr l, Forall no_self_suicide tr -> burned (exec_trace var tr l) = burned l.
@@ -109,8 +119,8 @@ Theorem C06_original_conserves_under_guard : forall U t l, universe U -> tx_clos
 Proof. exact original_conserves_under_guard. Qed.
 Print Assumptions C06_original_conserves_under_guard.
 
-(* Non-vacuity: a concrete universe, ledger and mixed history satisfy every hypothesis (the contract tx drains its
-   origin and self-destructs a contract onto itself). *)
+(* Non-vacuity: a concrete universe, ledger and mixed history satisfy every hypothesis (the first contract tx drains
+   its origin and self-destructs a contract onto itself, the second runs STAKE and a fractional UNSTAKE). *)
 Example C06_example :
   let U := [0%N; 1%N; 2%N; 3%N] in
   let l := {| bal := fun a => if N.eqb a 1 then 5000000000000000000000 else if N.eqb a 3 then 7 else 0;
@@ -120,6 +130,9 @@ Example C06_example :
                      [ESnap 1; EValue 1%N 2%N 4000000000000000000000; ESnap 2; ESuicide 3%N 3%N; EValue 2%N 3%N 5; ERevert 2;
                       ESuicide 3%N 3%N] true 900000000000000 None);
               OTx (TLock 2%N 400000000000000000000 true);
+              OTx (TContract 1%N true 3000000000000000 0 true
+                     [ELock 2%N 1000000000000000000; EUnstake 1%N 2%N 1500000000000000000 1000000000000000000 36010%N] true
+                     1244000000000000 None);
               OTx (TRefundReq 2%N 100000000000000000000 36010%N 2%N true);
               OReward 36010%N [(1%N, 3)]; OCheckAndMove 36010%N] in
   universe U /\ Forall (op_closed U) ops /\ Forall op_wf ops /\ nonneg l /\ sched_ok U (sched l) /\
@@ -129,8 +142,8 @@ Proof.
   split; [split; [repeat constructor; cbn; intuition discriminate|inU]|].
   split; [repeat first [apply Forall_nil | apply Forall_cons | split | exact I
                        | progress cbn [op_closed tx_closed ev_closed fst snd In] | (left; reflexivity) | right]|].
-  split; [repeat first [apply Forall_nil | apply Forall_cons]; cbn; try lia; try exact I;
-          repeat first [apply Forall_nil | apply Forall_cons]; cbn; lia|].
+  split; [repeat first [apply Forall_nil | apply Forall_cons | exact I | lia
+                       | progress cbn [op_wf tx_wf ev_wf fst snd] | split]|].
   split; [intro a; cbn; destruct (N.eqb a 1); [lia|destruct (N.eqb a 3); lia]|].
   split; [constructor|]. vm_compute. split; reflexivity.
 Qed.
